@@ -4,7 +4,7 @@
 name=$1; shift
 wt=/tmp/wtm-$name
 git -C /repo worktree remove --force $wt >/dev/null 2>&1
-git -C /repo worktree add --detach $wt HEAD >/dev/null 2>&1 || exit 2
+git -C /repo worktree add --detach $wt ${BASE:-HEAD} >/dev/null 2>&1 || exit 2
 git -C $wt apply /verif/seeded/$name/patch.diff || exit 2
 cd /verif
 for id in "$@"; do
